@@ -60,7 +60,7 @@ let handle (toks : string list) : string =
       let om c = if c = 'j' then OJson else OResp in
       let d = (match dflt with "j" -> Some OJson | "r" -> Some OResp | _ -> None) in
       let ps = List.map (fun p ->
-        List.map (fun c -> match c with 'J' -> POutput OJson | 'R' -> POutput OResp | _ -> POther)
+        List.map (fun c -> match c with 'J' -> POutput OJson | 'R' -> POutput OResp | 'H' -> PHello true | 'h' -> PHello false | _ -> POther)
           (List.init (String.length p) (String.get p))) (String.split_on_char '|' packets) in
       String.concat "" (List.map (fun m -> match m with OJson -> "j" | OResp -> "r") (serve d (om parsed.[0]) None ps))
   (* mvt <tile> <json reply> : the "mvt" member writeFoot writes and what the HTTP .mvt route answers,
@@ -77,6 +77,12 @@ let handle (toks : string list) : string =
       let k = if kind = "std" then BStd else BRawStd in
       if dir = "enc" then hex_of_bytes (encode k (bytes_of_hex s))
       else (match decode k (bytes_of_hex s) with Some b -> "ok " ^ hex_of_bytes b | None -> "err")
+  (* clientlist <RESP text of CLIENT LIST> : the members the JSON arm recovers, entry by entry *)
+  | ["clientlist"; buf] ->
+      let es = json_entries cut_first (bytes_of_hex buf) in
+      if es = [] then "." else
+      String.concat ";" (List.map (fun m ->
+        String.concat "," (List.map (fun (k, v) -> hex_of_bytes k ^ "=" ^ hex_of_bytes v) m)) es)
   | ["sub_msg"; p] -> hex_of_bytes (sub_msg (bytes_of_hex p))
   | ["ws_header"; n] -> hex_of_bytes (ws_header (n_of_int (int_of_string n)))
   | ["ws_decode"; f] ->
